@@ -15,13 +15,15 @@ def load_spec(name):
 
 
 class Ctx(object):
-    def __init__(self, target='le', workdir=None):
+    def __init__(self, target='le', workdir=None, defs=(), suffix=''):
         self.target = target
+        self.defs = tuple(defs)
+        self.suffix = suffix
         self.workdir = workdir or build.scratch()
         self.spec = load_spec('formats.json')
         self.formats = {f['format']: f for f in self.spec['formats']}
         try:
-            path, units = build.build_library_ir(target, workdir=self.workdir)
+            path, units = build.build_library_ir(target, workdir=self.workdir, defs=self.defs, suffix=suffix)
         except build.BuildError as e:
             raise Broken(str(e))
         self.units = units
@@ -52,18 +54,34 @@ class Ctx(object):
             lines.append('const verif_u64 verif_payoff_%s = offsetof(%s, payload);' % (fmt, f['type']))
             lines.append('#ifdef %s' % f['len_macro'])
             lines.append('const verif_u64 verif_lenmacro_%s = (verif_u64)(%s);' % (fmt, f['len_macro']))
+            # the macro used as an operand, WITHOUT parentheses of ours: an expansion that is not a primary
+            # expression (`A + B`) changes value next to a tighter-binding operator
+            lines.append('const verif_u64 verif_lenmacro_mul_%s = (verif_u64)(7 * %s * 3);' % (fmt, f['len_macro']))
+            lines.append('const verif_u64 verif_lenmacro_div_%s = (verif_u64)(1000000 / %s);' % (fmt, f['len_macro']))
+            lines.append('const verif_u64 verif_lenmacro_mod_%s = (verif_u64)(1000003 %% %s);' % (fmt, f['len_macro']))
+            lines.append('const verif_u64 verif_lenmacro_neg_%s = (verif_u64)(1000 + - %s);' % (fmt, f['len_macro']))
             lines.append('#endif')
             p = os.path.join(d, 'facts_%s.c' % fmt)
             with open(p, 'w') as fh:
                 fh.write('\n'.join(lines) + '\n')
             srcs.append(p)
+        # layout of the descriptor type the generic walkers read (member order and widths are the library's business)
+        lines = ['#include <stddef.h>', '#include "avtp/Defines.h"', 'typedef unsigned long long verif_u64;',
+                 'const verif_u64 verif_desc_sizeof = sizeof(Avtp_FieldDescriptor_t);']
+        for m in ('quadlet', 'offset', 'bits'):
+            lines.append('const verif_u64 verif_desc_off_%s = offsetof(Avtp_FieldDescriptor_t, %s);' % (m, m))
+            lines.append('const verif_u64 verif_desc_size_%s = sizeof(((Avtp_FieldDescriptor_t*)0)->%s);' % (m, m))
+        p = os.path.join(d, 'facts__descriptor.c')
+        with open(p, 'w') as fh:
+            fh.write('\n'.join(lines) + '\n')
+        srcs.append(p)
         try:
             _, std = build.library_units()
             bcs = build.compile_units(srcs, os.path.join(d, 'bc'), target=self.target, std=std, debug=False)
         except build.BuildError as e:
             raise Broken('the public API drifted from spec/formats.json (facts unit does not compile): %s' % e)
         facts = {}
-        for f, bc in zip(self.spec['formats'], bcs):
+        for bc in bcs:
             ll = bc[:-3] + '.ll'
             build.link_ll([bc], ll)
             m = irparse.parse_module(open(ll).read(), ll)
@@ -73,7 +91,37 @@ class Ctx(object):
                 elif name.startswith('verif_') and g.init is not None and g.init[0] == 'zero':
                     facts[name] = 0
         self._facts = facts
+        self.mod.desc_layout = (facts['verif_desc_sizeof'],
+                                {m: (facts['verif_desc_off_' + m], facts['verif_desc_size_' + m]) for m in ('quadlet', 'offset', 'bits')})
         return facts
+
+    # ---- other build configurations --------------------------------------
+    def config_variants(self):
+        """CMake's Release, RelWithDebInfo and MinSizeRel configurations add
+        -DNDEBUG.  If the library's code under -DNDEBUG differs from the default
+        configuration (compared as metadata-free IR text), return
+        [(tag, Ctx)] for it so that the caller decides the property for that
+        configuration too; [] when the two are identical."""
+        try:
+            a, _ = build.build_library_ir(self.target, workdir=self.workdir, suffix='_cmpdef', debug=False)
+            b, _ = build.build_library_ir(self.target, workdir=self.workdir, defs=('NDEBUG',), suffix='_cmpndebug',
+                                          debug=False)
+        except build.BuildError as e:
+            raise Broken('the library does not compile with -DNDEBUG: %s' % e)
+
+        def norm(path):
+            out = []
+            for l in open(path):
+                if l.startswith((';', '!', 'source_filename')) or not l.strip():
+                    continue
+                out.append(l)
+            return out
+        if norm(a) == norm(b):
+            return []
+        v = Ctx(self.target, workdir=self.workdir, defs=('NDEBUG',), suffix='_ndebug')
+        v._facts = self.facts()
+        v.mod.desc_layout = self.mod.desc_layout
+        return [(' [-DNDEBUG build]', v)]
 
     def enum_value(self, enumerator):
         k = 'verif_e_' + enumerator
@@ -87,3 +135,16 @@ class Ctx(object):
         if f is None:
             raise Broken('function %s named in the spec is not defined by the library' % name)
         return f
+
+
+def run_all_configs(run, tier, res, target='le'):
+    """Decide on the default configuration and on every other configuration
+    whose code differs (see Ctx.config_variants)."""
+    ctx = Ctx(target)
+    vs = ctx.config_variants()
+    res.extra['build configurations analysed'] = ['default (assertions on)'] + \
+        (['-DNDEBUG (differs from default)'] if vs else ['-DNDEBUG: IR identical to default, nothing further to decide'])
+    out = run(ctx, tier, res)
+    for tag, v in vs:
+        out = run(v, tier, res, tag=tag)
+    return out
